@@ -48,6 +48,14 @@ type causeErr struct {
 func (e *causeErr) Error() string { return e.msg }
 func (e *causeErr) Cause() error  { return e.inner }
 
+// tempErr says it is temporary (net.Error style): still an error the writer
+// returned, to be reported, not to be retried behind the caller's back.
+type tempErr struct{ msg string }
+
+func (e *tempErr) Error() string   { return e.msg }
+func (e *tempErr) Temporary() bool { return true }
+func (e *tempErr) Timeout() bool   { return true }
+
 type unwrapErr struct {
 	msg   string
 	inner error
@@ -65,6 +73,8 @@ func injectedError(sc *C19Step) error {
 		return &causeErr{msg: msg, inner: io.ErrClosedPipe}
 	case "unwrap":
 		return &unwrapErr{msg: msg, inner: io.ErrClosedPipe}
+	case "temporary":
+		return &tempErr{msg: msg}
 	}
 	return errors.New(msg)
 }
@@ -109,10 +119,16 @@ type simWriter struct {
 	midWrite   bool // the failure landed strictly inside one Write
 	pieces     int
 	extraCalls int // Flush/Sync/Close calls (kind extras)
+	silent     bool // shape silent: the short Write has happened, its error is still to come
 }
 
 func (w *simWriter) Write(p []byte) (int, error) {
 	w.calls++
+	if w.failed && w.silent {
+		// the call after the silently short one delivers the error
+		w.silent = false
+		return 0, w.err
+	}
 	if w.failed {
 		w.callsAfter++
 		w.bytesAfter += len(p)
@@ -148,6 +164,14 @@ func (w *simWriter) Write(p []byte) (int, error) {
 	if w.shape == "panic" {
 		w.got.Write(p[:room])
 		panic(w.err)
+	}
+	if w.shape == "silent" {
+		// Accepts the bytes up to k, says so, but reports no error yet: the error
+		// comes with the NEXT call (a writer in front of a full pipe or a quota).
+		w.got.Write(p[:room])
+		w.failed = true
+		w.silent = true
+		return room, nil
 	}
 	w.got.Write(p[:room])
 	return room, w.err
@@ -280,6 +304,13 @@ func c19Run(sc *C19Step, m *ir.Module, S string) *c19Outcome {
 	}
 	if n != int64(len(got)) {
 		return fail("count", fmt.Sprintf("WriteTo returned n=%d but the writer accepted %d bytes (k=%d, shape=%s)", n, len(got), sc.K, sc.Shape))
+	}
+	if w.faultFired && sc.Shape == "silent" && w.silent {
+		// the silently short Write was the last call: its error was never delivered
+		if err != nil {
+			return fail("spurious-error", fmt.Sprintf("no Write returned an error (the last one was short without saying so) but WriteTo returned err=%v", err))
+		}
+		return out
 	}
 	if w.faultFired {
 		if err != injected {
@@ -463,10 +494,14 @@ func c19Search() {
 						kind = "" // quick: most episodes use the plain writer
 					}
 					for k := k0; k < k0+episodeLen && k <= len(S); k++ {
-						st := C19Step{K: k, Shape: shape, Kind: kind, Err: []string{"", "", "cause-nil", "cause-other", "unwrap"}[(k/episodeLen+k)%5]}
+						st := C19Step{K: k, Shape: shape, Kind: kind, Err: []string{"", "", "cause-nil", "cause-other", "unwrap", "temporary"}[(k/episodeLen+k)%6]}
 						if k%11 == 7 {
 							// the writer panics with its error value instead of returning it
 							st.Shape = "panic"
+						}
+						if k%11 == 3 {
+							// short write now, error with the next call
+							st.Shape = "silent"
 						}
 						sc.Steps = append(sc.Steps, st)
 					}
@@ -484,7 +519,7 @@ func c19Search() {
 			for e := 0; e < 40 && failures < *flagMaxFail; e++ {
 				sc := &C19Scenario{Module: src.Name, Start: "printed"}
 				for i := 0; i < episodeLen-1; i++ {
-					sc.Steps = append(sc.Steps, C19Step{K: r.intn(len(S) + 1), Shape: []string{"short", "fullerr"}[r.intn(2)], Kind: []string{"", "", "string", "byte", "both", "readfrom", "extras"}[r.intn(7)], Err: []string{"", "", "cause-nil", "cause-other", "unwrap"}[r.intn(5)]})
+					sc.Steps = append(sc.Steps, C19Step{K: r.intn(len(S) + 1), Shape: []string{"short", "fullerr"}[r.intn(2)], Kind: []string{"", "", "string", "byte", "both", "readfrom", "extras"}[r.intn(7)], Err: []string{"", "", "cause-nil", "cause-other", "unwrap", "temporary"}[r.intn(6)]})
 				}
 				sc.Steps = append(sc.Steps, C19Step{K: -1, Shape: "short"})
 				if !mine() {
